@@ -157,7 +157,11 @@ def work_zoo(item):
 # ---- embedding sites ------------------------------------------------------------------------------------------------------
 
 SITES = ['AddVariable', 'SetEquationRightHandSide', 'AddCashFlow-eqn', 'AddTermToEquation', 'AddSupplier-eqn', 'GenerateAssetWeighting',
-         'AddGlobalEquation', 'AddVariable-self', 'AddTermToEquation-after-blob', 'AddTermToEquation-product', 'AddCashFlow-product-term', 'Equation-parsed-product']
+         'AddGlobalEquation', 'AddVariable-self', 'AddTermToEquation-after-blob', 'AddTermToEquation-product', 'AddCashFlow-product-term', 'Equation-parsed-product',
+         # ONE name requested twice - before full codes exist (placeholder) and after (canonical) - and both spellings embedded as terms of one equation:
+         # they mean one variable, so the equation counts it twice (or, with opposite signs, not at all)
+         'AddTermToEquation-both-stages', 'AddTermToEquation-both-stages-cancel', 'AddCashFlow-both-stages']
+BOTH_STAGES = ('AddTermToEquation-both-stages', 'AddTermToEquation-both-stages-cancel', 'AddCashFlow-both-stages')
 TEMPLATES = ['{N}', '2*{N} + 1', '({N} - 3)*{N}', '{N}/4 + LOCALX', 'max(5.0, {N})', 'max(LOCALX,{N}) - min(2.0 , {N})', 'float(LOCALX < {N})', '({N}\n      + 2*LOCALX)']
 
 
@@ -169,7 +173,7 @@ def site_cases(tier):
                 for ti, t in enumerate(TEMPLATES):
                     if tier == 'quick' and ti in (2,) and ncountry == 1:
                         continue
-                    if site in ('AddTermToEquation', 'AddTermToEquation-after-blob', 'AddTermToEquation-product', 'AddCashFlow-product-term', 'Equation-parsed-product') and ti != 0:
+                    if site in ('AddTermToEquation', 'AddTermToEquation-after-blob', 'AddTermToEquation-product', 'AddCashFlow-product-term', 'Equation-parsed-product') + BOTH_STAGES and ti != 0:
                         continue
                     cases.append((site, when, ncountry, t))
     # the same sites through the step-wise runner (aliases are resolved once before the sectors generate their equations and once after)
@@ -254,6 +258,35 @@ def build_site(case):
             expr = N + '/__M__'
             owner, local = host, 'PROBE'
         return ctx, owner, local, expr, N, target_sector, target_local, host, info
+    elif site in BOTH_STAGES:
+        N1 = N
+        if site == 'AddCashFlow-both-stages':
+            from sfc_models.sector import Sector as _Sector
+            host = _Sector(ctx['CA'], 'PRB')
+            if when == 'after':
+                model._GenerateFullSectorCodes()
+                N1 = target_sector.GetVariableName(target_local)
+            host.AddCashFlow('+' + N1, is_income=False)
+            model._GenerateFullSectorCodes()
+            N2 = target_sector.GetVariableName(target_local)
+            host.AddCashFlow('+' + N2, is_income=False)
+            info['ledger'] = '2*__REF__'
+            info['names'] = (N1, N2)
+            return ctx, host, 'F', None, N, target_sector, target_local, host, info
+        host.AddVariable('PROBE', 'probe', 'LOCALX')
+        host.EquationBlock['PROBE'].TermList = []
+        host.AddTermToEquation('PROBE', 'LOCALX')
+        host.AddTermToEquation('PROBE', N1)
+        model._GenerateFullSectorCodes()          # what Model.LogInfo() does: full codes come to exist part-way through the construction
+        N2 = target_sector.GetVariableName(target_local)
+        info['names'] = (N1, N2)
+        if site.endswith('cancel'):
+            host.AddTermToEquation('PROBE', '-' + N2)
+            expr = 'LOCALX + 0*__REF__'
+        else:
+            host.AddTermToEquation('PROBE', N2)
+            expr = 'LOCALX + 2*__REF__'
+        owner, local = host, 'PROBE'
     elif site == 'AddSupplier-eqn':
         # second supplier of the goods market with an allocation rule that embeds the requested name
         other = sd.FixedMarginBusinessMultiOutput(ctx['CA'], 'BUS2', market_list=[ctx['CA.GOOD']])
